@@ -61,7 +61,7 @@ fn space_for(tier: Tier) -> (Space, usize) {
     let n = spansets(SPANSET_INPUT.len()).len() as u64;
     match tier {
         Tier::Quick => {
-            s.ast("K", 5, 64).ast("CL", 3, 64).ast("U", 3, 64).ast("GCM", 4, 64).ast("GCE", 3, 64).ast("CAPQ", 4, 64).ast("ALTC", 5, 64).ast("AN", 3, 64).ast("NESTN", 4, 64).ast("CAPR", 4, 64).ast("OPTG", 5, 64);
+            s.ast("K", 5, 64).ast("CL", 3, 64).ast("U", 3, 64).ast("GCM", 4, 64).ast("GCE", 3, 64).ast("CAPQ", 4, 64).ast("ALTC", 5, 64).ast("AN", 3, 64).ast("NESTN", 4, 64).ast("CAPR", 4, 64).ast("OPTG", 5, 64).ast("CI", 2, 64);
             s.ast_range("ANL", 1, 3, 32, 6);
             s.ast_range("LP", 1, 3, 32, 5);
             s.list("spansets", n, 64);
@@ -70,7 +70,7 @@ fn space_for(tier: Tier) -> (Space, usize) {
             (s, 3)
         }
         Tier::Thorough => {
-            s.ast("K", 5, 64).ast("CL", 4, 64).ast("U", 4, 64).ast("GC", 5, 64).ast("GCM", 5, 64).ast("GCE", 4, 64).ast("CAPQ", 5, 64).ast("ALTC", 6, 64).ast("AN", 4, 64).ast("NESTN", 5, 64).ast("CAPR", 4, 64).ast("OPTG", 5, 64);
+            s.ast("K", 5, 64).ast("CL", 4, 64).ast("U", 4, 64).ast("GC", 5, 64).ast("GCM", 5, 64).ast("GCE", 4, 64).ast("CAPQ", 5, 64).ast("ALTC", 6, 64).ast("AN", 4, 64).ast("NESTN", 5, 64).ast("CAPR", 4, 64).ast("OPTG", 5, 64).ast("CI", 3, 64);
             s.ast_range("ANL", 1, 3, 32, 6);
             s.ast_range("LP", 1, 4, 32, 6);
             s.list("spansets", n, 64);
